@@ -7,7 +7,7 @@ from hypothesis.stateful import RuleBasedStateMachine, rule, invariant, run_stat
 from vlib import harness
 
 ID = "C19"
-RULE = ("(a) Hypothesis round trips: dict of 0-12 entries, names = ASCII identifiers and hyphenated names (incl. pairs colliding "
+RULE = ("(a) Hypothesis round trips: dict of 0-12 entries (plus, in some cases, 300-2500 generated entries, a value of 1000-70000 characters, a name of 300-9000 characters), names = ASCII identifiers and hyphenated names (incl. pairs colliding "
         "after '-'->'_'), values = ints (0, +-2^53+-1, 1e30), floats (all finite incl. subnormals, +-0.0, +-inf, nan), printable "
         "space-free ASCII strings incl. '' and numeric-looking ones; (b) Hypothesis RuleBasedStateMachine, <= 30 steps, rules "
         "addpar / set / set_parameters / set_varylist (valid and invalid) / set_variable_values (right and wrong length) / "
